@@ -545,19 +545,12 @@ pub(crate) fn instance_view(s: &PtpInstanceState) -> InstanceView {
 }
 
 // ------------------------------------------------------------------------------------------------
-// action summaries: drain a PortActionIterator into a comparable record (at most MAX_ACTIONS base
-// actions; ForwardTLV actions are counted)
+// action summaries: recorded at construction (see kani/src/actions.rs), frames read back by an independent
+// Clause-13 reader
 // ------------------------------------------------------------------------------------------------
-/// a frame found in an action: length and the first 64 octets (header + fixed body of every message
-/// statime emits), read back with an independent Clause-13 reader (`spec_frame`).  By the contracts of C04
-/// (header / bodies / framing units) a frame whose messageType is defined, whose messageLength equals the
-/// emitted length and 34 + body size of that type, decodes under the library's own parser.
-#[derive(Clone, Copy, PartialEq, Debug)]
-pub(crate) struct Frame {
-    pub(crate) len: usize,
-    pub(crate) link_local: bool,
-    pub(crate) head: [u8; 64],
-}
+pub(crate) use super::super::actions::verif_act::{ActionSummary, Frame};
+pub(crate) use super::super::actions::verif_act as act;
+
 #[derive(Clone, Copy, PartialEq, Debug)]
 pub(crate) struct SpecFrame {
     pub(crate) message_type: u8,
@@ -584,7 +577,9 @@ fn rd_identity(b: &[u8; 64], o: usize) -> PortIdentity {
         port_number: rd16(b, o + 8),
     }
 }
-/// Clause 13.3 Table 35 (header) and the leading Timestamp / PortIdentity of the body
+/// Clause 13.3 Table 35 (header) and the leading Timestamp / PortIdentity of the body. By the contracts of C04
+/// (header / bodies / framing units) a frame whose messageType is defined, whose messageLength equals the
+/// emitted length and 34 + body size of that type, decodes under the library's own parser.
 pub(crate) fn spec_frame(f: &Frame) -> SpecFrame {
     let b = &f.head;
     SpecFrame {
@@ -619,86 +614,12 @@ pub(crate) fn frame_well_formed(f: &Frame, message_type: u8) -> bool {
         && f.len <= MAX_DATA_LEN
 }
 
-#[derive(Clone, PartialEq, Debug)]
-pub(crate) struct ActionSummary {
-    pub(crate) n: u8,
-    pub(crate) n_send_event: u8,
-    pub(crate) n_send_general: u8,
-    pub(crate) n_reset_announce: u8,
-    pub(crate) n_reset_sync: u8,
-    pub(crate) n_reset_delay_req: u8,
-    pub(crate) n_reset_announce_receipt: u8,
-    pub(crate) n_reset_filter_update: u8,
-    pub(crate) n_forward_tlv: u8,
-    pub(crate) event: Option<Frame>,
-    pub(crate) general: Option<Frame>,
-    /// timestamp context of the event send: kind 0 Sync, 1 DelayReq, 2 PDelayReq, 3 PDelayResp, 0xff none
-    pub(crate) ctx_kind: u8,
-    pub(crate) ctx_id: u16,
-    pub(crate) ctx_requestor: Option<PortIdentity>,
-    /// the iterator returned None within `max` calls
-    pub(crate) exhausted: bool,
+/// run a handler and return the summary of the action list it built and returned
+macro_rules! run_actions {
+    ($call:expr) => {{
+        act::begin();
+        let it = $call;
+        act::taken(it)
+    }};
 }
-
-pub(crate) fn empty_summary() -> ActionSummary {
-    ActionSummary {
-        n: 0, n_send_event: 0, n_send_general: 0, n_reset_announce: 0, n_reset_sync: 0, n_reset_delay_req: 0,
-        n_reset_announce_receipt: 0, n_reset_filter_update: 0, n_forward_tlv: 0, event: None, general: None,
-        ctx_kind: 0xff, ctx_id: 0, ctx_requestor: None, exhausted: false,
-    }
-}
-
-fn frame_of(data: &[u8], link_local: bool) -> Frame {
-    let mut head = [0u8; 64];
-    let mut i = 0;
-    while i < 64 {
-        if i < data.len() { head[i] = data[i]; }
-        i += 1;
-    }
-    Frame { len: data.len(), link_local, head }
-}
-
-/// drain up to `max` actions (the iterator yields at most MAX_ACTIONS base actions plus forwarded TLVs).
-/// Actions and the iterator are `forget`-ed instead of dropped: the drop glue of PortAction (Cow inside
-/// ForwardedTLV) with a symbolic discriminant costs CBMC minutes and is not part of any property.
-pub(crate) fn summarize<'a>(mut it: PortActionIterator<'a>, max: usize) -> ActionSummary {
-    let mut s = empty_summary();
-    let mut k = 0;
-    while k < max {
-        match it.next() {
-            None => break,
-            Some(a) => {
-                s.n += 1;
-                match &a {
-                    PortAction::SendEvent { context, data, link_local } => {
-                        s.n_send_event += 1;
-                        s.event = Some(frame_of(data, *link_local));
-                        match &context.inner {
-                            actions::TimestampContextInner::Sync { id } => { s.ctx_kind = 0; s.ctx_id = *id; }
-                            actions::TimestampContextInner::DelayReq { id } => { s.ctx_kind = 1; s.ctx_id = *id; }
-                            actions::TimestampContextInner::PDelayReq { id } => { s.ctx_kind = 2; s.ctx_id = *id; }
-                            actions::TimestampContextInner::PDelayResp { id, requestor_identity } => {
-                                s.ctx_kind = 3; s.ctx_id = *id; s.ctx_requestor = Some(*requestor_identity);
-                            }
-                        }
-                    }
-                    PortAction::SendGeneral { data, link_local } => {
-                        s.n_send_general += 1;
-                        s.general = Some(frame_of(data, *link_local));
-                    }
-                    PortAction::ResetAnnounceTimer { .. } => s.n_reset_announce += 1,
-                    PortAction::ResetSyncTimer { .. } => s.n_reset_sync += 1,
-                    PortAction::ResetDelayRequestTimer { .. } => s.n_reset_delay_req += 1,
-                    PortAction::ResetAnnounceReceiptTimer { .. } => s.n_reset_announce_receipt += 1,
-                    PortAction::ResetFilterUpdateTimer { .. } => s.n_reset_filter_update += 1,
-                    PortAction::ForwardTLV { .. } => s.n_forward_tlv += 1,
-                }
-                core::mem::forget(a);
-            }
-        }
-        k += 1;
-    }
-    s.exhausted = k < max;
-    core::mem::forget(it);
-    s
-}
+pub(crate) use run_actions;
